@@ -76,10 +76,12 @@ def newObj (otype : Nat) (value : String) : Obj :=
     isKey := otype == OT.symmetricKey || otype == OT.publicKey || otype == OT.privateKey || otype == OT.splitKey,
     alg := none, len := none, format := none, subtype := none, value := value }
 
-/-- owner, initial date, column default of the policy name, identifier -/
+/-- owner, initial date, column default of the policy name (taken by `None` only: a request that SET the name to the
+empty text stores the empty text), identifier -/
 def finalize (c : Ctx) (e : Engine) (o : Obj) : Obj :=
   { o with owner := e.identity.user, initialDate := c.now,
-           policy := if o.policy = "" then "default" else o.policy }
+           policy := if o.policy = "" ∧ o.policyGiven = false then "default" else o.policy,
+           policyGiven := false }
 
 def cryptoErr {α} (cr : Crypto) : R α :=
   match cr with
